@@ -43,6 +43,15 @@ fn case(rec: &mut Rec, ctx: &Ctx, idx: u64, rng: &mut ChaCha20Rng) {
   let rc = if rng.gen_bool(0.2) { Content::Zero } else { Content::Uniform };
   let m = content(rng, ml, mc);
   let r = content(rng, rl, rc);
+  // messages that coincide with another part of the authenticated transcript (the encoded
+  // access structure, the coins): "message of any content" includes these
+  let m = match idx % 11 {
+    3 => { rec.ev("message_equals_threshold_encoding"); t.to_le_bytes().to_vec() }
+    6 => { rec.ev("message_equals_threshold_encoding"); let mut v = t.to_le_bytes().to_vec(); if rng.gen_bool(0.5) { v.extend_from_slice(&[0u8; 4]); } else { v = t.to_be_bytes().to_vec(); } v }
+    9 => { rec.ev("message_equals_coins"); r.clone() }
+    _ => m,
+  };
+  let ml = m.len();
   rec.evals += 1;
   rec.case(&(t.min(40), ml, rl, mc, rc));
   let rep = |extra: serde_json::Value| json!({"case": idx, "t": t, "message": hex_short(&m), "coins": hex_short(&r), "extra": extra});
